@@ -434,6 +434,55 @@ pub fn group_ladder<S: LinMap>(rec: &mut Rec) {
     }
 }
 
+
+/// Streaming KZG `commit_folding`: the commitment of every folding level is the key-defined sum over the
+/// coefficients of that level (naive fold, naive multi-scalar sum), for every length 1..=40 and depth 1..=5,
+/// and does not change when the input carries leading zero coefficients.
+pub fn folding_commitments(rec: &mut Rec) {
+    type G1 = <E381 as Pairing>::G1Affine;
+    use ark_poly_commit::streaming_kzg::FoldedPolynomialTree;
+    let max_len = if rec.thorough() { 130usize } else { 40 };
+    let ck = str_key(max_len + 4, 2, rec.seed);
+    let sck = skzg::CommitterKeyStream::from(&ck);
+    let g: Vec<G1> = sck.powers_of_g.0.to_vec();
+    let rs = rho_stream::<Fr381>(rec.seed, 22, max_len + 4);
+    let chs = rho_stream::<Fr381>(rec.seed, 23, 6);
+    rec.scope(format!("STR commit_folding: lengths 1..={} x depths 1..=5 x {{as is, two leading zero coefficients}}: every level == naive key sum of the naive fold", max_len));
+    for n in 1..=max_len {
+        for depth in 1..=5usize {
+            for pad in [0usize, 2] {
+                let id = format!("STR/fold-commit/n={}/depth={}/pad={}", n, depth, pad);
+                if !rec.take(&id) {
+                    continue;
+                }
+                rec.dim("scheme", "STR");
+                rec.op(1);
+                let mut coeffs = rs[..n].to_vec();
+                coeffs.extend(vec![Fr381::zero(); pad]);
+                let ch = &chs[..depth];
+                let want = crate::checks::c14::ref_fold(&rs[..n], ch);
+                let rev: Vec<Fr381> = coeffs.iter().rev().cloned().collect();
+                let stream = rev.as_slice();
+                let tree = FoldedPolynomialTree::new(&stream, ch);
+                match catch(|| sck.commit_folding(&tree, 1 << 10)) {
+                    Ok(cs) => {
+                        let mut ok = cs.len() == depth;
+                        for l in 1..=depth {
+                            let w = naive_msm(&g[..want[l].len()], &want[l]).into_affine();
+                            ok &= cs.get(l - 1).map(|c| c.verif_inner()) == Some(w);
+                        }
+                        rec.class(if ok { "matches-naive-msm" } else { "differs-from-naive-msm" });
+                        if !ok {
+                            viol(rec, "STR", "commit_folding/differs-from-key-map", &id, "a level commitment of commit_folding is not the key-defined sum over the coefficients of that folding".into());
+                        }
+                    }
+                    Err(e) => viol(rec, "STR", "commit_folding/in-domain", &id, format!("panicked: {}", e)),
+                }
+            }
+        }
+    }
+}
+
 /// The same ladder for KZG10 direct and the two streaming committers.
 pub fn special_ladder(rec: &mut Rec) {
     type G1 = <E381 as Pairing>::G1Affine;
@@ -999,5 +1048,6 @@ pub fn run(rec: &mut Rec) {
     group_ladder::<SIpa>(rec);
     group_ladder::<SPst>(rec);
     special_ladder(rec);
+    folding_commitments(rec);
     randomness_algebra(rec, if rec.thorough() { 3 } else { 2 });
 }
